@@ -1124,6 +1124,26 @@ theorem q_step (L : Prop) (w : World) (op : Op) (h : ∀ g ∈ w.conts, Q L g)
       split
       · exact h1
       · exact q_on h1 _ _ (fun g => aux_insertAnchor g _ _)
+  | rmAbsentPoint t rc =>
+    simp only [step]
+    repeat' split
+    all_goals exact h
+  | rmAbsent kind t k =>
+    simp only [step]
+    repeat' split
+    all_goals exact h
+  | rmForeign kind t src r =>
+    simp only [step]
+    repeat' split
+    all_goals exact h
+  | insAnchorBad t r v => exact h
+  | insGuideBad t r v => exact h
+  | setAnchorsBad t vs =>
+    simp only [step]
+    exact q_put h (q_of_aux (q_get h t) (aux_setAnchors _ _)) t
+  | setGuidesBad t vs =>
+    simp only [step]
+    exact q_put h (q_of_aux (q_get h t) (aux_setGuides _ _)) t
 
 end Ident
 end DefconModel
